@@ -63,6 +63,21 @@ def gen_cases(ctx):
         c = dict(kind='pool', rule=rule, exc=exc, prots=prots)
         c.update(lim_of(rng))
         cases.append(c)
+    # CLI level: generateIndex + updateIndex + on-the-fly load_references on generated worlds
+    from harness.lib import gen_reference as G
+    n_cli = 24 if ctx.quick else 300
+    for i in range(n_cli):
+        world = G.gen_world(rng, small=True, coding_p=0.9, bias='KRKRPMWDEFLCHYCKD')
+        params = []
+        for j in range(rng.choice([1, 2, 3])):
+            rule = 'trypsin' if rng.random() < 0.6 else rng.choice(names)
+            exc = rng.choice(['auto', 'auto', 'trypsin_exception']) if rule == 'trypsin' else 'auto'
+            ps = dict(rule=rule, exc=exc, k=rng.choice([0, 1, 2]), min_len=rng.choice([5, 7]), max_len=rng.choice([25, 30]),
+                      min_mw=rng.choice([300, 500]) + 0.00005 + rng.randrange(100) / 100.0)
+            if all((q['rule'], q['exc'], q['k'], q['min_len'], q['max_len'], q['min_mw']) !=
+                   (ps['rule'], ps['exc'], ps['k'], ps['min_len'], ps['max_len'], ps['min_mw']) for q in params):
+                params.append(ps)
+        cases.append(dict(kind='pool_cli', world=world, params=params))
     # exhaustive short strings over the rule's own letters (+ one neutral letter)
     maxlen = 3 if ctx.quick else 5
     for rule in names:
@@ -77,7 +92,29 @@ def gen_cases(ctx):
                                   seq=''.join(tup), short=True))
     return cases
 
+def resolved_exc(ps):
+    """CleavageParams semantics the CLI documents: auto -> trypsin_exception for trypsin, else none"""
+    if ps['exc'] == 'auto':
+        return 'trypsin_exception' if ps['rule'] == 'trypsin' else None
+    return ps['exc']
+
+def world_proteins(world):
+    from harness.lib import gen_reference as G
+    out = []
+    for gene in world['genes']:
+        for tx in gene['transcripts']:
+            if tx['cds']:
+                out.append([G.protein_of(world, gene, tx), 'cds_start_NF' in tx['tags']])
+    return out
+
 def oracle_req(c):
+    if c['kind'] == 'pool_cli':
+        prots = world_proteins(c['world'])
+        reqs = []
+        for ps in c['params']:
+            mw4 = int(round((ps['min_mw'] - 0.00005) * 10000))
+            reqs.append([ps['rule'], resolved_exc(ps), [ps['k'], mw4, ps['min_len'], ps['max_len']], prots])
+        return ('pool_multi', reqs)
     if c['kind'] == 'sites':
         return ('sites', [c['rule'], c['exc'], c['seq']])
     lim = [c['k'], c['mw4'], c['min_len'], c['max_len']]
@@ -89,6 +126,9 @@ def oracle_req(c):
 def canon_model(c, m):
     if c['kind'] == 'sites':
         return m
+    if c['kind'] == 'pool_cli':
+        pools = [('ValueError' if r else sorted(set(O.U(p) for p in ps))) for r, ps in m]
+        return {'index': pools, 'fly': pools}
     raised, ps = m
     if raised:
         return 'ValueError'
